@@ -184,6 +184,36 @@ theorem resize_port_stable {α : Type} (b : Bundle α) (l r : Option Int) (pre p
     · rw [if_pos he] at hpre ⊢; simp [hpre]
     · rw [if_neg he] at hpre ⊢; simp only [hpre]
 
+/-
+  **verilog_reader_spec** (full statement, NOT proved):
+    ∀ design a in the supported subset, view (elabV a) = denoteV a
+  where elabV is the whole-design elaboration (black-box holder, forward references with late port
+  growth, header/body declarations, deferred positional maps, assigns, top election).
+  Missing: the multi-module assembly — a model of the black-box holder and of the order-dependent growth
+  of ports across modules, and the invariant that links it to the per-connection function below.
+  Proved instead: the per-instance statement for all inputs.  The end-to-end statement is evaluated on
+  the implementation for every generated design (harness: verilog_view.check_c06).
+-/
+
+/-- **verilog_reader_spec_partial** (instance-connection level, all inputs): whenever the expression
+    has a value `ws` in the module's declared cables and is not wider than the port, the pins the reader
+    builds are the denotation `lowAligned W ws`: bit `k` of the expression from its least significant end on
+    pin `k`, nothing above; and all connections of an instance (each on its own port) are treated so. -/
+theorem verilog_reader_spec_partial (env : CableEnv) (conns : List (Nat × PExpr))
+    (h : ∀ c ∈ conns, ∃ ws, evalExpr env c.2 = some ws ∧ ws.length ≤ c.1) :
+    conns.mapM (fun c => readConn env c.1 c.2) =
+      some (conns.map (fun c => lowAligned c.1 ((evalExpr env c.2).getD []))) := by
+  induction conns with
+  | nil => rfl
+  | cons c cs ih =>
+    obtain ⟨ws, h1, h2⟩ := h c List.mem_cons_self
+    rw [List.mapM_cons, ih (fun x hx => h x (List.mem_cons_of_mem _ hx))]
+    simp only [readConn, h1, connect_low_aligned_fresh c.1 ws h2, Option.getD_some, List.map_cons]
+    rfl
+
+example : readConn (fun n => if n = "a" then some (4, 4) else none) 3 (.atom (.part "a" 6 5))
+    = some [some ⟨"a", 5⟩, some ⟨"a", 6⟩, none] := by rfl
+
 example : resizeCable 0 1 (some 3) (some 0) true = ⟨0, 0, 3⟩ := by decide
 example : resizeCable 4 2 (some 7) (some 2) false = ⟨2, 2, 2⟩ := by decide
 
